@@ -108,6 +108,7 @@ pub fn run(op: &str, input: &Value) -> Value {
         "sig.v" => sig_v(input),
         "message" => message(input),
         "tx.sign" => tx_sign(input),
+        "tx.encode" => tx_encode(input),
         "typeddata" => typeddata(input),
         "cli" | "cli.new" => cli(input),
         "rlp.len" | "rlp.bytes" | "rlp.uint" | "rlp.list" | "eip712.encode_type" | "eip712.member_kind"
@@ -321,6 +322,21 @@ fn tx_sign(input: &Value) -> R {
         o["signed"] = json!(hx(tx.encode(sig)));
     }
     Ok(ok(o))
+}
+
+/// `Transaction::encode` with a signature given as text (any scalars the parser accepts).
+fn tx_encode(input: &Value) -> R {
+    let mut text = Vec::new();
+    doc::render(input.get("doc").ok_or("doc")?, &mut text)?;
+    let tx = match serde_json::from_slice::<Transaction>(&text) {
+        Ok(tx) => tx,
+        Err(e) => return Ok(json!({ "err": e.to_string(), "stage": "transaction" })),
+    };
+    let sig = match s(input, "sigtext")?.parse::<Signature>() {
+        Ok(sig) => sig,
+        Err(e) => return Ok(json!({ "err": e.to_string(), "stage": "signature" })),
+    };
+    Ok(ok(json!({ "signed": hx(tx.encode(sig)), "sig": sig_json(&sig) })))
 }
 
 fn typeddata(input: &Value) -> R {
